@@ -1,85 +1,120 @@
 /-
-  C05 / C02 on the REGENERATED source: `tinyjambu_permutation_128` (src/tinyjambu/backend/tinyjambu-128-c32.c,
-  translated by tools/c2lean.py into TJ.Gen.MiniC.Prog) computes exactly the word-level model `TJ.perm128`, which
-  TJ.Props.C05.c_backend_is_spec / TJ.Props.C02.permutation_is_nlfsr equate with the specification's bit-serial
-  StateUpdate.
+  C05 / C02 on the REGENERATED source: `tinyjambu_permutation_128` and `tinyjambu_permutation_256`
+  (src/backend/tinyjambu-128-c32.c, tinyjambu-256-c32.c, translated by tools/c2lean.py into TJ.Gen.MiniC.Prog) compute
+  exactly the word-level models `TJ.perm128` / `TJ.perm256`, which TJ.Props.C05.c_backend_is_spec /
+  TJ.Props.C02.permutation_is_nlfsr equate with the specification's bit-serial StateUpdate.
 
   For every state, every key, every round count below 2^32 (0 and odd counts included), wherever the state object
   lies (any block, any 4-aligned base):
     * the call returns normally to an unchanged caller environment;
-    * the four state words of the object hold `perm128 key rounds s` afterwards;
+    * the four state words of the object hold `perm128 key rounds s` (`perm256 key rounds s`) afterwards;
     * the key words, every other byte of the object, and every other block of memory are unchanged.
   A shift amount, operand rotation, key index, loop bound, early exit or store offset that differs from the model
-  makes this file (or TJ.Proofs.PermC / PermC128) stop compiling.
+  makes this file (or TJ.Proofs.PermC / PermCBody) stop compiling.
 -/
-import TJ.Proofs.PermC128
+import TJ.Proofs.PermCBody
 import TJ.Proofs.SpecTop
 namespace TJ.Props.C05Gen
 open TJ TJ.MiniC TJ.MiniC.PermC TJ.Gen.MiniC
 
-/-- a TinyJAMBU-128 state object in memory (bytes of its block, base offset of the block): state words `s` at
-    offsets 0..12, pre-inverted key words at 16..28 -/
-structure StateObj (bytes : Array LByte) (base : Nat) (s : W4) (key : Key) : Prop where
+/-- a TinyJAMBU state object in memory (bytes of its block, base offset of the block): state words `s` at
+    offsets 0..12, `nk` pre-inverted key words from offset 16 on -/
+structure StateObj (nk : Nat) (bytes : Array LByte) (base : Nat) (s : W4) (key : Key) : Prop where
   al : base % 4 = 0
-  lt : base + 32 < ptrBase
-  sz : 32 ≤ bytes.size
+  lt : base + bytes.size < ptrBase
+  sz : 16 + 4 * nk ≤ bytes.size
   s0 : readLE bytes 0 4 = some (s.a.toNat, Lab.sec)
   s1 : readLE bytes 4 4 = some (s.b.toNat, Lab.sec)
   s2 : readLE bytes 8 4 = some (s.c.toNat, Lab.sec)
   s3 : readLE bytes 12 4 = some (s.d.toNat, Lab.sec)
-  k0 : readLE bytes 16 4 = some ((kw key 0).toNat, Lab.sec)
-  k1 : readLE bytes 20 4 = some ((kw key 1).toNat, Lab.sec)
-  k2 : readLE bytes 24 4 = some ((kw key 2).toNat, Lab.sec)
-  k3 : readLE bytes 28 4 = some ((kw key 3).toNat, Lab.sec)
+  keys : ∀ i, i < nk → readLE bytes (16 + 4 * i) 4 = some ((kw key i).toNat, Lab.sec)
 
 theorem prog_perm128 : prog[idx_tinyjambu_permutation_128]? = some f_tinyjambu_permutation_128 := by
   simp only [prog, idx_tinyjambu_permutation_128, List.getElem?_cons_succ, List.getElem?_cons_zero]
+theorem prog_perm256 : prog[idx_tinyjambu_permutation_256]? = some f_tinyjambu_permutation_256 := by
+  simp only [prog, idx_tinyjambu_permutation_256, List.getElem?_cons_succ, List.getElem?_cons_zero]
 
-theorem permutation_128_source_is_model (m : Nat) (st : St) (bs : Nat) (blk : Block) (s : W4) (key : Key) (r : Nat)
-    (hr : r < 4294967296) (hb : st.mem[bs]? = some blk) (hbb : bs < 2 ^ 30) (obj : StateObj blk.bytes blk.base s key) :
+/-- the shared part: a function with body `bodyG o`, called on a state object whose second-round key words lie at `o` -/
+theorem call_generic (fn : Nat) (fd : FunDecl) (o : Nat) (hprog : prog[fn]? = some fd) (hbody : fd.body = bodyG o)
+    (hp : fd.nparams = 2) (hv : fd.nvars = 26) (ha : fd.allocs = [])
+    (m : Nat) (st : St) (bs : Nat) (blk : Block) (s P : W4) (K0 K1 K2 K3 K4 K5 K6 K7 : UInt32) (r : Nat)
+    (hr : r < 4294967296) (km : KM st bs blk o K0.toNat K1.toNat K2.toNat K3.toNat K4.toNat K5.toNat K6.toNat K7.toNat)
+    (s0 : readLE blk.bytes 0 4 = some (s.a.toNat, Lab.sec)) (s1 : readLE blk.bytes 4 4 = some (s.b.toNat, Lab.sec))
+    (s2 : readLE blk.bytes 8 4 = some (s.c.toNat, Lab.sec)) (s3 : readLE blk.bytes 12 4 = some (s.d.toNat, Lab.sec))
+    (hP : permNG K0.toNat K1.toNat K2.toNat K3.toNat K4.toNat K5.toNat K6.toNat K7.toNat r (toN s) = toN P) :
     ∃ leak' bytes',
-      callFun prog (m + r + 24) idx_tinyjambu_permutation_128 false [(mkPtr bs blk.base, .pub), (r, .pub)] st =
+      callFun prog (m + r + 24) fn false [(mkPtr bs blk.base, .pub), (r, .pub)] st =
         .ok .normal #[(0, .pub), (mkPtr bs blk.base, .pub), (r, .pub)] { st with leak := leak', mem := setBlock st.mem bs bytes' } ∧
       bytes'.size = blk.bytes.size ∧
-      StateObj bytes' blk.base (perm128 key r s) key ∧
+      readLE bytes' 0 4 = some (P.a.toNat, Lab.sec) ∧ readLE bytes' 4 4 = some (P.b.toNat, Lab.sec) ∧
+      readLE bytes' 8 4 = some (P.c.toNat, Lab.sec) ∧ readLE bytes' 12 4 = some (P.d.toNat, Lab.sec) ∧
       (∀ j, 16 ≤ j → bytes'[j]? = blk.bytes[j]?) := by
-  have km : KM st bs blk (kw key 0).toNat (kw key 1).toNat (kw key 2).toNat (kw key 3).toNat :=
-    ⟨hb, obj.al, obj.lt, hbb, obj.sz, obj.k0, obj.k1, obj.k2, obj.k3⟩
-  obtain ⟨leak', h⟩ := perm128_call prog idx_tinyjambu_permutation_128 prog_perm128 (fun i => i) (fun _ => rfl) m
+  obtain ⟨leak', h⟩ := permG_call prog fn fd o hprog hbody hp hv ha (fun i => i) (fun _ => rfl) m
     #[(0, .pub), (mkPtr bs blk.base, .pub), (r, .pub)] st (.var 1) (.var 2) r s.a.toNat s.b.toNat s.c.toNat s.d.toNat
-    _ _ _ _ bs blk hr km (by simp [evalE]) (by simp [evalE]) obj.s0 obj.s1 obj.s2 obj.s3
-  have hN := permN128_eq key r s
-  simp only [toN] at hN
-  simp only [hN] at h
-  have h16 : 16 ≤ blk.bytes.size := Nat.le_trans (by decide) obj.sz
-  have keep : ∀ off, 16 ≤ off → readLE (bytesAfter blk.bytes (perm128 key r s).a.toNat (perm128 key r s).b.toNat (perm128 key r s).c.toNat (perm128 key r s).d.toNat) off 4 = readLE blk.bytes off 4 :=
-    fun off ho => readLE_congr _ _ 4 off (fun j h1 _ => bytesAfter_out _ _ _ _ _ j (Nat.le_trans ho h1))
-  have hW : (bytesAfter blk.bytes (perm128 key r s).a.toNat (perm128 key r s).b.toNat (perm128 key r s).c.toNat (perm128 key r s).d.toNat).size = blk.bytes.size := size_bytesAfter _ _ _ _ _
-  have s0 : readLE (bytesAfter blk.bytes (perm128 key r s).a.toNat (perm128 key r s).b.toNat (perm128 key r s).c.toNat (perm128 key r s).d.toNat) 0 4 = some ((perm128 key r s).a.toNat, Lab.sec) := bytesAfter_w0 blk.bytes _ _ _ _ (UInt32.toNat_lt _) h16
-  have s1 : readLE (bytesAfter blk.bytes (perm128 key r s).a.toNat (perm128 key r s).b.toNat (perm128 key r s).c.toNat (perm128 key r s).d.toNat) 4 4 = some ((perm128 key r s).b.toNat, Lab.sec) := bytesAfter_w1 blk.bytes _ _ _ _ (UInt32.toNat_lt _) h16
-  have s2 : readLE (bytesAfter blk.bytes (perm128 key r s).a.toNat (perm128 key r s).b.toNat (perm128 key r s).c.toNat (perm128 key r s).d.toNat) 8 4 = some ((perm128 key r s).c.toNat, Lab.sec) := bytesAfter_w2 blk.bytes _ _ _ _ (UInt32.toNat_lt _) h16
-  have s3 : readLE (bytesAfter blk.bytes (perm128 key r s).a.toNat (perm128 key r s).b.toNat (perm128 key r s).c.toNat (perm128 key r s).d.toNat) 12 4 = some ((perm128 key r s).d.toNat, Lab.sec) := bytesAfter_w3 blk.bytes _ _ _ _ (UInt32.toNat_lt _) h16
-  have hobj : StateObj (bytesAfter blk.bytes (perm128 key r s).a.toNat (perm128 key r s).b.toNat (perm128 key r s).c.toNat (perm128 key r s).d.toNat) blk.base (perm128 key r s) key :=
-    ⟨obj.al, obj.lt, Nat.le_trans obj.sz (Nat.le_of_eq hW.symm), s0, s1, s2, s3,
-      (keep 16 (by decide)).trans obj.k0, (keep 20 (by decide)).trans obj.k1, (keep 24 (by decide)).trans obj.k2, (keep 28 (by decide)).trans obj.k3⟩
-  have hcall : callFun prog (m + r + 24) idx_tinyjambu_permutation_128 false [(mkPtr bs blk.base, .pub), (r, .pub)] st =
-      .ok .normal #[(0, .pub), (mkPtr bs blk.base, .pub), (r, .pub)] { st with leak := leak', mem := setBlock st.mem bs (bytesAfter blk.bytes (perm128 key r s).a.toNat (perm128 key r s).b.toNat (perm128 key r s).c.toNat (perm128 key r s).d.toNat) } := by
+    _ _ _ _ _ _ _ _ bs blk hr km (by simp [evalE]) (by simp [evalE]) s0 s1 s2 s3
+  simp only [toN] at hP
+  simp only [hP] at h
+  have h16 : 16 ≤ blk.bytes.size := Nat.le_trans (by decide) km.sz
+  have hcall : callFun prog (m + r + 24) fn false [(mkPtr bs blk.base, .pub), (r, .pub)] st =
+      .ok .normal #[(0, .pub), (mkPtr bs blk.base, .pub), (r, .pub)] { st with leak := leak', mem := setBlock st.mem bs (bytesAfter blk.bytes P.a.toNat P.b.toNat P.c.toNat P.d.toNat) } := by
     unfold callFun
     simp only [List.length_cons, List.length_nil, List.range, List.range.loop, List.map, Bool.false_eq_true, if_false, Nat.zero_add]
     exact h
-  exact ⟨leak', (bytesAfter blk.bytes (perm128 key r s).a.toNat (perm128 key r s).b.toNat (perm128 key r s).c.toNat (perm128 key r s).d.toNat), hcall, size_bytesAfter _ _ _ _ _, hobj, fun j hj => bytesAfter_out _ _ _ _ _ j hj⟩
+  exact ⟨leak', bytesAfter blk.bytes P.a.toNat P.b.toNat P.c.toNat P.d.toNat, hcall, size_bytesAfter _ _ _ _ _,
+    bytesAfter_w0 blk.bytes _ _ _ _ (UInt32.toNat_lt _) h16, bytesAfter_w1 blk.bytes _ _ _ _ (UInt32.toNat_lt _) h16,
+    bytesAfter_w2 blk.bytes _ _ _ _ (UInt32.toNat_lt _) h16, bytesAfter_w3 blk.bytes _ _ _ _ (UInt32.toNat_lt _) h16,
+    fun j hj => bytesAfter_out _ _ _ _ _ j hj⟩
 
-/-- with TJ.Props.C05.c_backend_is_spec: the words the regenerated C function leaves are the specification's
+/-- the object after the call is again a state object, with the same key -/
+theorem StateObj.after {nk : Nat} {bytes bytes' : Array LByte} {base : Nat} {s P : W4} {key : Key} (obj : StateObj nk bytes base s key)
+    (hsz : bytes'.size = bytes.size)
+    (p0 : readLE bytes' 0 4 = some (P.a.toNat, Lab.sec)) (p1 : readLE bytes' 4 4 = some (P.b.toNat, Lab.sec))
+    (p2 : readLE bytes' 8 4 = some (P.c.toNat, Lab.sec)) (p3 : readLE bytes' 12 4 = some (P.d.toNat, Lab.sec))
+    (hout : ∀ j, 16 ≤ j → bytes'[j]? = bytes[j]?) : StateObj nk bytes' base P key :=
+  ⟨obj.al, by rw [hsz]; exact obj.lt, by rw [hsz]; exact obj.sz, p0, p1, p2, p3,
+    fun i hi => (readLE_congr _ _ 4 _ (fun j h1 _ => hout j (Nat.le_trans (Nat.le_add_right 16 _) h1))).trans (obj.keys i hi)⟩
+
+theorem permutation_128_source_is_model (m : Nat) (st : St) (bs : Nat) (blk : Block) (s : W4) (key : Key) (r : Nat)
+    (hr : r < 4294967296) (hb : st.mem[bs]? = some blk) (hbb : bs < 2 ^ 30) (obj : StateObj 4 blk.bytes blk.base s key) :
+    ∃ leak' bytes',
+      callFun prog (m + r + 24) idx_tinyjambu_permutation_128 false [(mkPtr bs blk.base, .pub), (r, .pub)] st =
+        .ok .normal #[(0, .pub), (mkPtr bs blk.base, .pub), (r, .pub)] { st with leak := leak', mem := setBlock st.mem bs bytes' } ∧
+      StateObj 4 bytes' blk.base (perm128 key r s) key ∧
+      (∀ j, 16 ≤ j → bytes'[j]? = blk.bytes[j]?) := by
+  have hsz := obj.sz
+  have km : KM st bs blk 16 (kw key 0).toNat (kw key 1).toNat (kw key 2).toNat (kw key 3).toNat (kw key 0).toNat (kw key 1).toNat (kw key 2).toNat (kw key 3).toNat :=
+    ⟨hb, obj.al, obj.lt, hbb, by omega, by decide, by omega, obj.keys 0 (by decide), obj.keys 1 (by decide), obj.keys 2 (by decide), obj.keys 3 (by decide),
+      obj.keys 0 (by decide), obj.keys 1 (by decide), obj.keys 2 (by decide), obj.keys 3 (by decide)⟩
+  obtain ⟨leak', bytes', hcall, hsz', p0, p1, p2, p3, hout⟩ := call_generic idx_tinyjambu_permutation_128 f_tinyjambu_permutation_128 16 prog_perm128
+    body128_eq rfl rfl rfl m st bs blk s (perm128 key r s) _ _ _ _ _ _ _ _ r hr km obj.s0 obj.s1 obj.s2 obj.s3 (permNG_eq128 key r s)
+  exact ⟨leak', bytes', hcall, obj.after hsz' p0 p1 p2 p3 hout, hout⟩
+
+theorem permutation_256_source_is_model (m : Nat) (st : St) (bs : Nat) (blk : Block) (s : W4) (key : Key) (r : Nat)
+    (hr : r < 4294967296) (hb : st.mem[bs]? = some blk) (hbb : bs < 2 ^ 30) (obj : StateObj 8 blk.bytes blk.base s key) :
+    ∃ leak' bytes',
+      callFun prog (m + r + 24) idx_tinyjambu_permutation_256 false [(mkPtr bs blk.base, .pub), (r, .pub)] st =
+        .ok .normal #[(0, .pub), (mkPtr bs blk.base, .pub), (r, .pub)] { st with leak := leak', mem := setBlock st.mem bs bytes' } ∧
+      StateObj 8 bytes' blk.base (perm256 key r s) key ∧
+      (∀ j, 16 ≤ j → bytes'[j]? = blk.bytes[j]?) := by
+  have hsz := obj.sz
+  have km : KM st bs blk 32 (kw key 0).toNat (kw key 1).toNat (kw key 2).toNat (kw key 3).toNat (kw key 4).toNat (kw key 5).toNat (kw key 6).toNat (kw key 7).toNat :=
+    ⟨hb, obj.al, obj.lt, hbb, by omega, by decide, by omega, obj.keys 0 (by decide), obj.keys 1 (by decide), obj.keys 2 (by decide), obj.keys 3 (by decide),
+      obj.keys 4 (by decide), obj.keys 5 (by decide), obj.keys 6 (by decide), obj.keys 7 (by decide)⟩
+  obtain ⟨leak', bytes', hcall, hsz', p0, p1, p2, p3, hout⟩ := call_generic idx_tinyjambu_permutation_256 f_tinyjambu_permutation_256 32 prog_perm256
+    body256_eq rfl rfl rfl m st bs blk s (perm256 key r s) _ _ _ _ _ _ _ _ r hr km obj.s0 obj.s1 obj.s2 obj.s3 (permNG_eq256 key r s)
+  exact ⟨leak', bytes', hcall, obj.after hsz' p0 p1 p2 p3 hout, hout⟩
+
+/-- with TJ.Props.C05.c_backend_is_spec: the words the regenerated C functions leave are the specification's
     StateUpdate applied 128·rounds times -/
-theorem model_is_spec (key : Bytes) (rounds : Nat) (s : W4) :
-    pack (perm128 (loadKey .v128 key) rounds s) = Spec.keyed Variant.v128.params key (pack s) (128 * rounds) :=
-  permC_keyed .v128 key rounds s
+theorem model_is_spec (v : Variant) (key : Bytes) (rounds : Nat) (s : W4) :
+    pack (permC v (loadKey v key) rounds s) = Spec.keyed v.params key (pack s) (128 * rounds) :=
+  permC_keyed v key rounds s
 
 /-- non-vacuity: a concrete memory holding a state object (at a base that is 4-aligned but not 8-aligned) -/
-def demoBlk : Block := { bytes := (List.replicate 40 ((0x5A : UInt8), Lab.sec)).toArray, base := 4 }
-def demoSt : St := { mem := #[{ bytes := #[], base := 0 }, demoBlk], ent := [], leak := [] }
+def demoBlk : Block := { bytes := (List.replicate 48 ((0x5A : UInt8), Lab.sec)).toArray, base := 4 }
 
-example : StateObj demoBlk.bytes demoBlk.base ⟨0x5A5A5A5A, 0x5A5A5A5A, 0x5A5A5A5A, 0x5A5A5A5A⟩ [0x5A5A5A5A, 0x5A5A5A5A, 0x5A5A5A5A, 0x5A5A5A5A] :=
-  ⟨by decide, by decide, by decide, by decide, by decide, by decide, by decide, by decide, by decide, by decide, by decide⟩
+example : StateObj 8 demoBlk.bytes demoBlk.base ⟨0x5A5A5A5A, 0x5A5A5A5A, 0x5A5A5A5A, 0x5A5A5A5A⟩
+    [0x5A5A5A5A, 0x5A5A5A5A, 0x5A5A5A5A, 0x5A5A5A5A, 0x5A5A5A5A, 0x5A5A5A5A, 0x5A5A5A5A, 0x5A5A5A5A] :=
+  ⟨by decide, by decide, by decide, by decide, by decide, by decide, by decide, by decide⟩
 
 end TJ.Props.C05Gen
